@@ -81,6 +81,7 @@ type Interp struct {
 	runtimeErrT types.Type
 	tracing     bool
 	fnCount     map[*ssa.Function]int64
+	sampled     int
 }
 
 type mutexState struct {
